@@ -100,7 +100,7 @@ def main():
             if other:
                 failures.append({'id': f'list_{name}', 'class': None, 'case': {'spelling': name}, 'detail': other[:3]})
             samples.append({'spelling': name, 'names': len(NAMES)})
-        for i in range(40 if tier == 'thorough' else 10):
+        for i in range(200 if tier == 'thorough' else 10):
             cases += 1
             f = model_case(base, rnd, 25)
             if f:
